@@ -289,11 +289,14 @@ def minimise(check, case, bucket, max_runs=250, max_seconds=40):
     best = copy.deepcopy(case)
     improved = True
     keys = getattr(check, 'SHRINK_KEYS', None)
+    kinds = getattr(check, 'SHRINK_KINDS', ('list', 'int', 'str'))
     while improved and runs[0] < max_runs and time.time() - started <= max_seconds:
         improved = False
         for path, kind in list(_paths(best)):
             if keys is not None and (not path or path[0] not in keys):
                 continue   # only the parts of a case that stay inside the input domain when shrunk
+            if kind not in kinds:
+                continue
             try:
                 cur = _get(best, path)
             except (KeyError, IndexError, TypeError):
